@@ -28,6 +28,7 @@ ASSUMPTIONS = ['RDKit sanitisation / valence model is taken as reference where i
                'embedding oracle domain: standard (lowest) valences, no charges, rings of 5+ atoms sharing no atom']
 MECHANISMS = [('cgsmiles.rdkit', 'networkx_to_rdkit'), ('cgsmiles.rdkit', 'rdkit_to_networkx'), ('cgsmiles.rdkit', 'embed_3d_via_rdkit'),
               ('cgsmiles.coordinates', 'forward_map_molecule')]
+FINDING_FEATURES = {'rdkit.roundtrip_reperceives_aromaticity': 'rdkit_perceives_other_aromatic_bonds'}
 SIZES = {'quick': dict(round=1600, embed=192, fmap=800), 'thorough': dict(round=40000, embed=3000, fmap=20000)}
 RADII = {'H': 0.31, 'C': 0.76, 'N': 0.71, 'O': 0.66, 'F': 0.57, 'P': 1.07, 'S': 1.05, 'Cl': 1.02, 'Br': 1.20}
 
@@ -44,13 +45,18 @@ def cases(seed, tier, shard, nshards):
                 continue
         while True:
             c = MC.random_cut_case(rng, rng.choice([3, 6, 10]) if what == 'embed' else rng.choice([3, 6, 10, 16]), ctor='string',
-                                   mol_kw=dict(charged=(what != 'embed'), lowest_valence=(what == 'embed')))
+                                   mol_kw=dict(charged=(what != 'embed'), lowest_valence=(what == 'embed'),
+                                               p_het5=(0.35 if what == 'round' and rng.random() < 0.4 else 0.0)))
             if c is not None and (what != 'embed' or unstrained(c)):
                 break
         c = dict(c, kind=what, variant=rng.choice(['resolved', 'resolved_shuffled', 'resolved_sparse', 'raw']) if what == 'round'
                  else rng.choice(['resolved', 'resolved_shuffled', 'resolved_sparse']), sub_seed=rng.randrange(10 ** 6),
                  conformer=rng.random() < 0.4)
         c['features'] = sorted(set(c['features']) | {what, c['variant']} | ({'with_conformer'} if c['conformer'] and what == 'round' else set()))
+        if what == 'round':
+            c['rdkit_status'] = rdkit_status(c)
+            if c['rdkit_status'] == 'aromaticity_differs':
+                c['features'] = sorted(set(c['features']) | {'rdkit_perceives_other_aromatic_bonds'})
         yield c
 
 
@@ -138,8 +144,20 @@ def chem_signature(g):
     return t
 
 
+def same_atoms(a, b):
+    """isomorphic on element, formal charge and hydrogen count, bond orders left aside"""
+    return (len(a) == len(b) and a.number_of_edges() == b.number_of_edges() and
+            nx.is_isomorphic(a, b, node_match=lambda x, y: (x['element'], x['charge'], x['nh']) == (y['element'], y['charge'], y['nh'])))
+
+
 def rdkit_agrees(case):
-    """RDKit, given the generator's Kekule structure, accepts the molecule and perceives the same aromatic bonds"""
+    return rdkit_status(case) == 'agrees'
+
+
+def rdkit_status(case):
+    """how RDKit, given the generator's Kekule structure, sees the molecule: 'agrees' (accepted, same aromatic bonds, same
+    hydrogens and charges), 'hypervalent', 'rejected', 'aromaticity_differs' (accepted, same atoms, but other bonds are
+    flagged aromatic - pyrrole, furan, thiophene, imidazole rings written in Kekule form) or 'atoms_differ'"""
     from rdkit import Chem
     t = MC.truth_from_json(case['truth'])
     # hypervalent centres (N(V), P(V), S(IV/VI)) are normalised by RDKit's clean-up in an atom-order
@@ -147,7 +165,7 @@ def rdkit_agrees(case):
     for n, d in t.nodes(data=True):
         tot = sum(e['order'] for _, _, e in t.edges(n, data=True)) + d['nh']
         if abs(tot - M.VAL[(d['element'], d['charge'])][0]) > 1e-9:
-            return False
+            return 'hypervalent'
     mol = Chem.RWMol()
     idx = {}
     for n, d in t.nodes(data=True):
@@ -174,20 +192,20 @@ def rdkit_agrees(case):
         m = mol.GetMol()
         Chem.SanitizeMol(m)
     except Exception:
-        return False
+        return 'rejected'
     got = {frozenset((b.GetBeginAtomIdx(), b.GetEndAtomIdx())) for b in m.GetBonds() if b.GetIsAromatic()}
     want = {frozenset((idx[a], idx[b])) for a, b in arom_edges}
-    if got != want:
-        return False
     for n, d in t.nodes(data=True):
         at = m.GetAtomWithIdx(idx[n])
         if at.GetTotalNumHs() != d['nh'] or at.GetFormalCharge() != d['charge']:
-            return False
+            return 'atoms_differ'
+    if got != want:
+        return 'aromaticity_differs'
     for a, b, d in t.edges(data=True):
         bo = m.GetBondBetweenAtoms(idx[a], idx[b]).GetBondTypeAsDouble()
         if bo != d['order']:
-            return False
-    return True
+            return 'atoms_differ'
+    return 'agrees'
 
 
 def run(case):
@@ -203,8 +221,10 @@ def run(case):
     txt = MC.case_text(case)
     kind = case['kind']
     cls = (kind, tuple(case['features']), case['nheavy'])
-    if kind in ('round', 'embed') and not case.get('system') and not rdkit_agrees(case):
-        return {'violations': [], 'rejected': {'rdkit_model_disagrees_or_rejects': 1}, 'nontrivial': False, 'cls': ('skipped',), 'sample': txt}
+    if kind in ('round', 'embed') and not case.get('system'):
+        status = case.get('rdkit_status') or rdkit_status(case)
+        if not (status == 'agrees' or (status == 'aromaticity_differs' and kind == 'round')):
+            return {'violations': [], 'rejected': {'rdkit_' + status: 1}, 'nontrivial': False, 'cls': ('skipped',), 'sample': txt}
     res = MC.resolve_case(case)
     if res['error']:
         return {'violations': [], 'rejected': {'not_resolvable_judged_by_C01': 1}, 'nontrivial': False, 'cls': ('skipped',), 'sample': txt}
@@ -227,8 +247,10 @@ def run(case):
                     case = dict(case, conformer=False)
             back = rdkit_to_networkx(mol)
             got = chem_signature(back)
-            if not M.same_molecule(got, want):
-                viol.append(V('c18.roundtrip_chemistry', f'{txt} [{case["variant"]}, conformer={case["conformer"]}]: round trip gives {M.describe(got)}, input {M.describe(want)}'))
+            if not same_atoms(got, want):
+                viol.append(V('c18.roundtrip_atoms', f'{txt} [{case["variant"]}, conformer={case["conformer"]}]: round trip gives {M.describe(got)}, input {M.describe(want)} (elements / charges / hydrogen counts / connectivity)'))
+            elif not M.same_molecule(got, want):
+                viol.append(V('c18.roundtrip_bond_orders', f'{txt} [{case["variant"]}, conformer={case["conformer"]}]: round trip gives {M.describe(got)}, input {M.describe(want)}'))
             if case['conformer']:
                 for n, d in back.nodes(data=True):
                     p = d.get('position')
